@@ -3,7 +3,9 @@
 //	kind "store": operations on storage/filesystem.Storage itself: Index() handles, in-place
 //	              mutation / replacement / append / removal through a handle, SetIndex, external
 //	              rewrites of .git/index.  After every operation: what Index() returns now and
-//	              what a cache-less decode of the file returns.
+//	              what a cache-less decode of the file returns — except after operations marked
+//	              "q" (quiet), where the harness does not touch the storage, so that the caller's
+//	              next Index() is the cache miss (or hit) under test.
 //	kind "porc":  worktree operations (Add, Remove, Move, Commit, Reset, Checkout, Status) with
 //	              injected filesystem failures and external rewrites; same two views compared.
 package main
@@ -173,6 +175,14 @@ func storeCase(c lib.Case) (lib.Out, any) {
 				h.Cache, h.ResolveUndo, h.EndOfIndexEntry = nil, nil, nil
 			}
 		}
+		if op.Bool("q") {
+			// quiet step: the harness does not read the index here, so the NEXT Index() call (the
+			// caller's own, e.g. the first one after an external rewrite: a cache miss) is the
+			// one whose result the following operations hold and modify
+			outs = append(outs, lib.Sym("quiet"))
+			exts = append(exts, lib.Sym("quiet"))
+			continue
+		}
 		view, err := st.Index()
 		must(err)
 		disk, err := decodeDisk(fs)
@@ -300,6 +310,17 @@ func porcCase(c lib.Case) (lib.Out, any) {
 		fired := fl.fired
 		fl.disarm()
 		xw.note()
+		if op.Bool("q") {
+			// quiet step (see storeCase): the next Index() is the one inside the following operation
+			st2 := "ok"
+			es := ""
+			if err != nil {
+				st2, es = "err", err.Error()
+			}
+			outs = append(outs, lib.List(lib.Sym(st2), lib.Sym("quiet")))
+			log = append(log, map[string]any{"op": op.S("op"), "err": es, "eq": "quiet", "detail": "", "faults_fired": fired})
+			continue
+		}
 		view, verr := st.Index()
 		disk, derr := decodeDisk(rawdot)
 		eq := "equal"
